@@ -48,6 +48,7 @@ var Prop = &engine.Prop{
 		{Name: "close-race", Quick: 64, Thorough: 4800, Repeat: 20, Fn: closeRaceCase},
 		{Name: "many-parked", Quick: 48, Thorough: 1900, Fn: manyParkedCase},
 		{Name: "predecessor", Quick: 600, Thorough: 40000, Fn: predecessorCase},
+		{Name: "streak", Quick: 400, Thorough: 24000, Fn: streakCase},
 		// last: a violation of this kind leaves goroutines behind that never park
 		{Name: "anyway-add", Quick: 400, Thorough: 16000, Fn: anywayCase},
 	},
